@@ -488,7 +488,9 @@ def _insert_arg_helper(args):
                             msg + f"was not a pair of values, it is: {pair}"
                         )
 
-                kvlist = args[0]
+                # A list of its own: *args[0]* may be a view of the very
+                # container that the pairs are about to be inserted into.
+                kvlist = list(args[0])
 
     elif len(args) == 2:
         kvlist = (args,)
